@@ -615,6 +615,10 @@ class Scheduler:
             logger.info("Got a process for job %s - waiting to complete", job)
             code = await process.aio_code()
             logger.info("Job %s completed with code %s", job, code)
+            if code is None:
+                # No return code for a process we did not start: rely on the
+                # markers left by the job (avoids reporting ERROR first)
+                code = 0 if job.donepath.is_file() else 1
             job.state = JobState.DONE if code == 0 else JobState.ERROR
 
         # Check if done
